@@ -552,6 +552,18 @@ impl WorldC {
                     obs.count("fault.client_crash");
                 }
             }
+            K_SETMAX => {
+                // the application moves the client limit at run time: nobody who is connected is affected by that
+                let n = 1 + (op.a % 4) as usize;
+                obs.count("op.set_max_clients");
+                let before: Vec<u64> = (1..self.next_id).filter(|id| self.transport.client_addr(*id).is_some()).collect();
+                self.transport.set_max_clients(n);
+                let after: Vec<u64> = (1..self.next_id).filter(|id| self.transport.client_addr(*id).is_some()).collect();
+                obs.count("oracle.C20.limit_change_keeps_sessions");
+                if before != after {
+                    obs.violate("C20", "limit-change-dropped-sessions", "netcode-layer", format!("limit {}: {:?} -> {:?}", n, before, after));
+                }
+            }
             K_SPOOFPORT => {
                 // the relay takes a datagram that is on its way to a client off the wire and hands it over under another source
                 // port of the server's host (the genuine copy is lost): the client only listens to its server's address
@@ -684,6 +696,9 @@ impl WorldC {
             w[13] = 1;
         }
         let dt_menu = [0u64, 16, 16, 16, 33, 50, 100, 100, 250, 250, 500, 1000];
+        if self.cfg.get("setmax") == 1 && rng.chance(1, 40) {
+            return Op::new(K_SETMAX, rng.below(4), 0, 0, 0);
+        }
         if self.cfg.get("spoof") == 1 && !self.slots[j].to_client.is_empty() && rng.chance(1, 3) {
             return Op::new(K_SPOOFPORT, j as u64, 0, rng.below(3), 0);
         }
